@@ -233,6 +233,14 @@ class DetailedPlacement {
   int siteEnd(int row, int pred) const;
 
   /**
+   * @brief Return true if the row polarity of the cell allows it in this row
+   */
+  bool isRowAllowed(int c, int row) const {
+    return cellOrientationInRow(cellRowPolarity(c), rows_[row].orientation) !=
+           CellOrientation::INVALID;
+  }
+
+  /**
    * @brief Return true if it is possible to place the cell here
    */
   bool canPlace(int c, int row, int pred, int x) const;
